@@ -7,10 +7,15 @@ import "github.com/massnetorg/mass-core/config"
 // VerifNewManager: a keystore manager whose current keystore is an (empty) address manager named walletId.
 // Overlay-only hook for harnesses of other packages (txmgr, masswallet) that need CurrentKeystore().Name().
 func VerifNewManager(walletId string) *KeystoreManager {
-	am := &AddrManager{keystoreName: walletId, index: map[uint32]string{}, addrs: map[string]*ManagedAddress{}}
+	am := &AddrManager{keystoreName: walletId, index: map[uint32]string{}, addrs: map[string]*ManagedAddress{}, acctInfo: &accountInfo{}, branchInfo: &branchInfo{}}
 	return &KeystoreManager{
 		managedKeystores: map[string]*AddrManager{walletId: am},
 		currentKeystore:  &currentKeystore{accountName: walletId},
 		params:           &config.ChainParams,
 	}
+}
+
+// VerifAddAddress registers addr as an address of the current keystore (only the look-up by text is used).
+func VerifAddAddress(km *KeystoreManager, walletId, addr string) {
+	km.managedKeystores[walletId].addrs[addr] = &ManagedAddress{address: addr, keystoreName: walletId}
 }
